@@ -36,7 +36,7 @@ class CountDev(Device):
 class World:
     """dispatcher + one fast group with `nwriters` writer datagrams"""
 
-    def __init__(self, sess, layout, registered=True, index=5):
+    def __init__(self, sess, layout, registered=True, index=5, decoy=None):
         self.sess = sess
         self.layout = layout
         self.index = index
@@ -44,6 +44,19 @@ class World:
         self.ec = ecat.OfflineFastEtherCat(sess)
         self.disp = EtherXDP()
         self.disp.programs = self.ec.programs
+        if decoy:
+            # an earlier fast group of the same master (other terminals,
+            # another layout): nothing of it may leak into this group
+            dd = []
+            for k, kind in enumerate(decoy):
+                t, v = ecat.make_terminal(
+                    self.ec, 40 + k, [("I",)], [("H",)],
+                    use_fmmu=(kind == "f"))
+                dd.append(CountDev(v[SyncManager.IN, 0],
+                                   v[SyncManager.OUT, 0]
+                                   if kind in "wf" else None))
+            self.decoy = FastSyncGroup(self.ec, dd)
+            self.decoy.allocate()
         devs = []
         pos = 1
         for kind in layout:      # 'r' read-only, 'w' direct rw, 'f' fmmu rw
@@ -60,6 +73,13 @@ class World:
         self.gl.load()
         self.dl = prog.Loaded(self.disp, sess)
         self.dl.load()
+        # an identifier beyond the program table whose low 16 bits name a
+        # slot that IS in use (by this very program): it is still foreign
+        self.alias = index >= 64 and (index & 0xffff) < 64
+        if self.alias:
+            kern.map_update(self.ec.programs,
+                            struct.pack("<I", index & 0xffff),
+                            struct.pack("<I", self.gl.fd))
         if registered and index < 64:
             kern.map_update(self.ec.programs, struct.pack("<I", index),
                             struct.pack("<I", self.gl.fd))
@@ -72,6 +92,8 @@ class World:
         pm = self.mem.maps[self.ec.programs]
         if registered and index < 64:
             pm.progs[index] = ebpfvm.Program(self.gl.code, "group")
+        if self.alias:
+            pm.progs[index & 0xffff] = ebpfvm.Program(self.gl.code, "group")
         self.dprog = ebpfvm.Program(self.dl.code, "dispatcher")
         self.vars = self.disp.__dict__["variables"]
         self.cpos = self.disp.__dict__["counters"]
@@ -160,6 +182,11 @@ def explore(world, starts, depth, res, on_step, max_states=200000,
         if len(frames_) < maxinflight:
             succ.append(((c, tuple(sorted(frames_ + (fresh,))), w, run,
                           srun), "inject"))
+        # user space switches the outputs of the group on (wkc_errors = 1
+        # once the terminals are operational) or off (wkc_errors = 0 when
+        # the group is restarted) while frames are in flight
+        succ.append(((c, frames_, 0 if w else 1, run, srun),
+                     "outputs " + ("off" if w else "on")))
         for i, fs in enumerate(frames_):
             rest = frames_[:i] + frames_[i + 1:]
             # lose
@@ -170,7 +197,9 @@ def explore(world, starts, depth, res, on_step, max_states=200000,
             ret, out, ran = world.step_v(frame)
             c2, w2 = world.get_state()
             ntrans += 1
-            rec = dict(state=s, frame=fs, action=ret, ran=ran,
+            touched = world.index >= 64 and any(
+                world.vars[world.cpos:world.cpos + 256])
+            rec = dict(counters_touched=touched, state=s, frame=fs, action=ret, ran=ran,
                        out=world.abstract(out) if len(out) == len(frame)
                        else None, out_frame=out, in_frame=frame,
                        c_before=c, c_after=c2 & 0xff, w_before=5 if w else 0,
